@@ -18,7 +18,7 @@ is the identity and the initial-reply guard is on.  Core Lean only.
 namespace DaeVerif.C13.EP
 
 /-- `udpEndpointJanitorInterval` -/
-def janitorInterval : Nat := 250000000
+def janitorInterval : Nat := 250000000  -- default; the harness reports the value the code uses
 /-- `ttlRefreshMinInterval` -/
 def ttlRefreshMin : Nat := 200000000
 /-- lifetime of a negative-cache entry (`cacheFailureLocked`) -/
@@ -70,6 +70,11 @@ structure St where
   drn : Nat → Drain.St
   /-- ghost: transport dials performed -/
   dials : Nat
+  /-- the pool's tuning constants (janitor period, TTL-refresh throttle, negative-cache lifetime);
+  the harness reads them off the real code, so retuning them is not a disagreement -/
+  janitorIv : Nat := janitorInterval
+  ttlMin : Nat := ttlRefreshMin
+  failTtl : Nat := failureTtl
 
 def init : St :=
   { now := 0, nextJanitor := janitorInterval, pool := fun _ => none, neps := 0, eps := fun _ => dummyEp,
@@ -94,10 +99,10 @@ def Ep.survives (E : Ep) : Bool := E.hasSent || E.hasReply
 def usable (s : St) (E : Ep) : Bool := !E.failed && !E.dead && (genCurrent s E || E.survives)
 
 /-- `RefreshTtlWithTime(now)` (throttled) -/
-def refreshTtl (E : Ep) (now : Nat) : Ep :=
+def refreshTtl (tmin : Nat) (E : Ep) (now : Nat) : Ep :=
   if E.natTimeout = 0 then E
   else
-    let minI := if E.natTimeout > 10 * ttlRefreshMin then E.natTimeout / 50 else ttlRefreshMin
+    let minI := if E.natTimeout > 10 * tmin then E.natTimeout / 50 else tmin
     if now - E.lastRefresh < minI then E
     else { E with lastRefresh := now, expiresAt := now + E.natTimeout }
 
@@ -212,9 +217,9 @@ def allocEp (s : St) (E : Ep) : St :=
   setPool (setEp { s with neps := s.neps + 1, dials := s.dials + 1 } s.neps E) E.key (some s.neps)
 
 /-- `cacheFailureLocked`: negative-cache entry for 2 s -/
-def failureEntry (k now : Nat) : Ep :=
+def failureEntry (k now ttl : Nat) : Ep :=
   { dummyEp with key := k, failed := true, dead := false, closed := false, csClosed := false,
-                 expiresAt := now + failureTtl }
+                 expiresAt := now + ttl }
 
 /-- `DrainTracker.Acquire()` for a new endpoint -/
 def acquireTicket (s : St) (drain : Option Nat) : St × Option Nat :=
@@ -263,7 +268,7 @@ def getOrCreate (s : St) (k : Nat) (sym : Bool) (nat : Nat) (owner drain : Optio
   | none =>
     match out with
     | .failNoAlive => (dropStale s k, .errDial)
-    | .failGeneric => (allocEp (dropStale s k) (failureEntry k (dropStale s k).now), .errDial)
+    | .failGeneric => (allocEp (dropStale s k) (failureEntry k (dropStale s k).now s.failTtl), .errDial)
     | .ok =>
       (allocEp (prepCreate s k drain d) (createRecord s k sym nat owner drain d),
        .created (prepCreate s k drain d).neps)
@@ -275,29 +280,29 @@ inductive WriteOutcome | ok | err | short
   deriving DecidableEq, Repr
 
 /-- the record after the bookkeeping `WriteTo` does before touching the transport -/
-def preWrite (E : Ep) (now : Nat) : Ep :=
-  refreshTtl { E with wrote := if E.hasReply then E.wrote else true } now
+def preWrite (tmin : Nat) (E : Ep) (now : Nat) : Ep :=
+  refreshTtl tmin { E with wrote := if E.hasReply then E.wrote else true } now
 
 /-- `WriteTo`; returns whether the call succeeded -/
 def writeTo (s : St) (e : Nat) (out : WriteOutcome) : St × Bool :=
   if (s.eps e).dead then (s, false)
   else match out with
-    | .err => (retire (setEp s e (preWrite (s.eps e) s.now)) e, false)
-    | .ok => (setEp s e { (preWrite (s.eps e) s.now) with hasSent := true }, true)
-    | .short => (retire (setEp s e { (preWrite (s.eps e) s.now) with hasSent := true }) e, false)
+    | .err => (retire (setEp s e (preWrite s.ttlMin (s.eps e) s.now)) e, false)
+    | .ok => (setEp s e { (preWrite s.ttlMin (s.eps e) s.now) with hasSent := true }, true)
+    | .short => (retire (setEp s e { (preWrite s.ttlMin (s.eps e) s.now) with hasSent := true }) e, false)
 
 /-- `markReplied` / `RefreshTtlWithTime` on an accepted reply -/
-def onReply (E : Ep) (now : Nat) : Ep :=
+def onReply (tmin : Nat) (E : Ep) (now : Nat) : Ep :=
   if !E.hasReply then { E with hasReply := true, wrote := false, lastRefresh := now, expiresAt := now + E.natTimeout }
-  else refreshTtl E now
+  else refreshTtl tmin E now
 
 /-- the transport delivers a reply from the peer the client wrote to; `handlerOk` = the reply
 handler (reinjection to the client) succeeds -/
 def reply (s : St) (e : Nat) (handlerOk : Bool) : St :=
   if (s.eps e).closed then s                      -- the read loop has ended with the conn
   else if !(s.eps e).hasReply && !((s.eps e).wrote || (s.eps e).symmetric) then s   -- unmatched initial reply: dropped
-  else if handlerOk then setEp s e (onReply (s.eps e) s.now)
-  else retire (setEp s e (onReply (s.eps e) s.now)) e
+  else if handlerOk then setEp s e (onReply s.ttlMin (s.eps e) s.now)
+  else retire (setEp s e (onReply s.ttlMin (s.eps e) s.now)) e
 
 /-- the transport's `ReadFrom` fails hard (not a normal close) -/
 def readError (s : St) (e : Nat) : St :=
@@ -321,7 +326,7 @@ def janitor (nkeys : Nat) (s : St) (t : Nat) : St := (pooled s nkeys).foldl (jan
 
 def tickJanitor (nkeys : Nat) (s : St) : St :=
   { (janitor nkeys { s with now := s.nextJanitor } s.nextJanitor) with
-    nextJanitor := s.nextJanitor + janitorInterval }
+    nextJanitor := s.nextJanitor + s.janitorIv }
 
 /-- the janitor runs at every tick up to `target` -/
 def runJanitors (nkeys : Nat) (target : Nat) : Nat → St → St
@@ -409,7 +414,7 @@ def step (s : St) : Op → St
   | .readErr e => readError s e
   | .remove k e => remove s k e
   | .close e => closeEp s e
-  | .advance dt => advance nkeys (dt / janitorInterval + 2) s dt
+  | .advance dt => advance nkeys (dt / (s.janitorIv + 1) + 2) s dt
   | .invalidate d => (invalidate s d).1
   | .reset => reset nkeys s
   | .track e j => track s e j
